@@ -13,20 +13,29 @@ from .stubs import install_uniform, ptr, sym_array, arr_syms
 from .loops import AbsSim, make_grid, make_stoich, run_prologue, havoc_array, choice_oracle
 from pyxsym.sym import s_and, s_or, s_not, s_log, ite, is_sym, CFault, Sym
 
-REPLAY = ("replay_drivers.ssa", "replay")
+REPLAY = ("replay_drivers.C05", "replay")
 
 
 _SYMS = {}
 
 
 def _report(c, cond, label, sig=None, syms=None):
+    facets = getattr(c, "facets", None)
+    if facets is not None and ":" in label[:20] and label.split(":")[0] not in facets:
+        return None          # obligation outside the facets the calling check depends on
     ok = c.prove(cond, label, info={"sig": sig or label, "what": label})
     if ok is False:
         c.failures[-1]["replay"] = {"kind": "ssa", "values": model_env(c, c.failures[-1]["model"], dict(_SYMS))}
+        if label.startswith("init:") or "untouched" in label or "never written" in label:
+            c.failures[-1]["replay"]["facet"] = "reuse"
     return ok
 
 
-def step_job(interp, c, case, rules=False):
+def step_job(interp, c, case, rules=False, facets=None):
+    """facets (None = all): init, step, feasible, record, absorbing, model-untouched, dt-rule, schedule, invariant, exit.
+    `step` is the exact sampling law; `feasible`, `record`, `absorbing` are its oracle-free consequences that other
+    properties depend on (they hold for any waiting-time / choice law)."""
+    c.facets = facets
     S, R, T, ci = case
     install_uniform(interp)
     sim_mod = interp.load("bioscrape.simulator")
@@ -80,26 +89,42 @@ def step_job(interp, c, case, rules=False):
     try:
         out = interp.exec_loop_once(w, fr)
     except CFault as e:
-        _report(c, False, "step: memory-unsafe access: %s" % e, "ssa unsafe access")
+        _report(c, False, "memory-unsafe access in the SSA loop: %s" % e, "ssa unsafe access")
         return
     if out != "next":
-        _report(c, False, "step: loop body ended with %r" % (out,))
+        _report(c, False, "the SSA loop body ended with %r" % (out,))
         return
     # ---- reference step relation (direct method with grid recording)
     log = sim.log
     ok_order = len(log) == 2 and log[0][0] == "rules" and log[1][0] == "props"
-    _report(c, ok_order, "step: rules are applied once, then the propensities are computed once")
+    _report(c, ok_order, "rules: rules are applied once, then the propensities are computed once")
     if not ok_order:
         return
     _, rx, rt, rrs, _, x_eff = log[0]
     _, px, pt, a, _ = log[1]
     _report(c, s_and(rt == t, pt == t, rrs == rs, *[rx[i] == x_pre[i] for i in range(S)],
                      *[px[i] == x_eff[i] for i in range(S)]),
-            "step: rules and propensities see the current state and time")
+            "rules: rules and propensities see the current state and time")
     Lam = 0
     for aj in a:
         Lam = Lam + aj
     _SYMS["Lam"] = Lam
+    # ---- consequences of the step relation that do not depend on the sampling law
+    xp = [L["c_current_state"][i] for i in range(S)]
+    stay = s_and(*[xp[i] == x_eff[i] for i in range(S)])
+    moves = [s_and(a[j] > 0, *[xp[i] == x_eff[i] + U[i, j] + D[i, j] for i in range(S)]) for j in range(R)]
+    _report(c, s_or(stay, *moves), "feasible: the state is unchanged or changes by the net (immediate + delayed) stoichiometry of one "
+            "reaction whose propensity is positive", "ssa infeasible move")
+    if Lam == 0:
+        _report(c, stay, "absorbing: with total propensity zero the state does not change", "ssa absorbing state left")
+    ci_a = L["current_index"]
+    rec = [ci <= ci_a, ci_a <= T]
+    for r in range(T):
+        for i in range(S):
+            rec.append(L["c_results"][r, i] == (x_eff[i] if ci <= r < ci_a else res0[r, i]))
+    rec += [grid[r] <= L["current_time"] for r in range(ci, min(ci_a, T))]
+    _report(c, s_and(*rec), "record: the rows written in this iteration are exactly the grid times up to the new clock, and they hold the "
+            "rule-updated state before the reaction of this iteration; no other row is touched", "ssa row recording")
     draws = list(c.draws)
     if Lam == 0:
         fired, t_new, rs_new, used = False, grid[ci], 1, 0
@@ -149,6 +174,8 @@ def step_job(interp, c, case, rules=False):
             "step: waiting time -ln(u1)/Lambda capped at the next grid time; reaction j chosen iff "
             "sum_{i<j} a_i < u2*Lambda <= sum_{i<=j} a_i; rows T[k] <= t' record the pre-update state; "
             "x' = x + S[:,j]", "ssa step relation")
+    if not is_sym(L["current_index"]):
+        ci_new = L["current_index"]          # later obligations are stated against the loop's own new row index
     _report(c, all(a is b for a, b in zip(sim.x0, x0_orig)) and all(a is b for a, b in zip(sim.params, p_orig)),
             "model-untouched: the interface's initial-state and parameter arrays are never written by the loop", "ssa loop writes the model")
     inv = [ci_new <= T]
@@ -165,7 +192,7 @@ def step_job(interp, c, case, rules=False):
         _report(c, L["current_time"] < grid[ci_new],
                 "schedule: the clock equals a grid time only after that row is final, so a rule scheduled for T[k] cannot "
                 "change row k or earlier rows", "ssa scheduled-rule ordering")
-    _report(c, s_and(*inv), "step: invariant preserved (clock between the surrounding grid times, never "
+    _report(c, s_and(*inv), "invariant: preserved (clock between the surrounding grid times, never "
                             "backwards) and progress (a row is written or a reaction fires)", "ssa invariant")
     # ---- exit obligation
     if ci_new == T:
@@ -225,6 +252,19 @@ def check(tier):
     for i, cse in enumerate(cs):
         ck.add("step/S%dR%dT%d/ci%d" % cse, "harness.C05", "step_job", dict(cases=[cse]))
     ck.add("samplers", "harness.C05", "sampler_job", dict(cases=[(1,), (2,), (3,)] + ([(4,)] if tier == "thorough" else [])))
+    # "the model's stochastic propensities": what the plain and the safe interface hand to the loop, reaction by reaction,
+    # in models with one and with two reactions (C01's closed forms; integer states)
+    from . import C01
+    ms = [x for x in C01.massaction_structures("quick") if len(x[1][0]) <= 3]
+    hs = [x for x in C01.hill_structures("quick") if x[5] in ("sym", 2)]
+    if tier == "quick":
+        ms, hs = ms[::3], hs[::4]
+    for i in range(0, len(ms), 8):
+        ck.add("propensities/massaction/%d" % (i // 8), "harness.C01", "massaction_job",
+               dict(cases=ms[i:i + 8], domain="int", routes=["interface", "safe"], modes=["stochastic"]))
+    for i in range(0, len(hs), 8):
+        ck.add("propensities/hill/%d" % (i // 8), "harness.C01", "hill_job",
+               dict(cases=hs[i:i + 8], domain="int", routes=["interface", "safe"], modes=["stochastic"]))
     ck.bounds = dict(species="<= %d" % max(x[0] for x in cs), reactions="<= %d" % max(x[1] for x in cs),
                      time_points="<= %d" % max(x[2] for x in cs), stoichiometry="integers in [-3,3] (immediate and delayed)",
                      loop="one iteration from an arbitrary pre-state satisfying the invariant (inductive), plus "
@@ -256,6 +296,7 @@ def check(tier):
     ]
     for name, m in mut:
         ck.add_mutant(name, m, "step", "harness.C05", "step_job", dict(cases=[(2, 2, 3, 0), (2, 2, 3, 1), (2, 2, 3, 2)]))
+    ck.oracle_selftest = [{'kind': 'ssa'}]
     ck.validate = ['ssa']
     ck.run()
     return ck.finish(replay=REPLAY)
